@@ -14,6 +14,7 @@ import PromVerif.Drv.C08
 import PromVerif.Drv.C02
 import PromVerif.Drv.C16
 import PromVerif.Drv.C12
+import PromVerif.Drv.Fam
 namespace PromVerif.Drv
 
 def dispatch (m : String) (args : List String) : String :=
@@ -34,6 +35,7 @@ def dispatch (m : String) (args : List String) : String :=
   | "c02" => C02.handle args
   | "c16" => C16.handle args
   | "c12" => C12.handle args
+  | "fam" => Fam.handle args
   | _ => "err unknown-module"
 
 end PromVerif.Drv
